@@ -50,7 +50,7 @@ def _height(p, h0):
     return fr
 
 
-def handler_outcomes(F, fn, h0, args):
+def handler_outcomes(F, fn, h0, args, extra_models=None, decided_only=False):
     """[(result, signal, height)] of one handler on a scripted stack of h0 opaque values; args: tuple of str | None (opaque argument)."""
     argv = Tup([Str(a) if a is not None else Opaque("arg%d" % i, "alloc::string::String") for i, a in enumerate(args)]) if args is not None else None
 
@@ -172,10 +172,15 @@ def handler_outcomes(F, fn, h0, args):
         "bytecode::variables::primitive::Primitive::move_out_of_heap_primitive": moved,
         SLICE + "first": a_first, SLICE + "last": a_last, SLICE + "get": a_get, SLICE + "len": a_len, SLICE + "is_empty": a_empty,
     })
-    it = Interp(F, models=models, max_depth=2, max_paths=6000)
+    if extra_models:
+        models.update(extra_models)
+    it = Interp(F, models=models, max_depth=2 if not extra_models else 4, max_paths=6000, loop_bound=3 if not extra_models else 64)
     outs = it.run(fn, [Opaque("ctx"), argv if argv is not None else Opaque("args")])
     res = set()
     for o in outs:
+        if decided_only and o.data_dep:
+            res.add(("data-dependent", None, None))
+            continue
         hh = [e[1] for e in o.events if e[0] == "h"]
         sg = [e[1] for e in o.events if e[0] == "signal"]
         kind = o.kind
